@@ -3,6 +3,8 @@
 import Driver.Common
 import ZepidVerif.Model.Ice
 import ZepidVerif.Model.SurvGF
+import ZepidVerif.Gen.SurvGF
+import ZepidVerif.Gen.IceStep
 namespace ZVD
 open ZV
 
@@ -167,8 +169,39 @@ def opSgfPl (a : Args) : Except String String := do
   pure (s!"ok times={showList toString tm} pl={showList showOptRat pl} pp={showBool (SurvGF.personPeriod rows)} " ++
     s!"bin={showBool (rows.all fun r => decide (r.y ≤ 1))}")
 
+/-- the definition regenerated from the text of `SurvivalGFormula.fit` (`Gen.survgf_fit`), run on the prepared table
+    (the harness sends the complete records already sorted by (id, time)): `predicted_df[outcome]` and
+    `marginal_outcome` at the observed times -/
+def opSgfGen (a : Args) : Except String String := do
+  let rows ← longRows a
+  let plan ← need a "treatment" some
+  if SurvGF.prep rows != rows then throw "bad-arg:not-prepared" else
+  let out := Gen.survgf_fit (F := Rat) plan (fun b r => if b then r.h1 else r.h0) rows
+  let tm := SurvGF.times rows
+  pure (s!"ok ci={showList showRat out.2} times={showList toString tm} marg={showList showRat (tm.map out.1)}")
+
+/-- the backward recursion of `IterativeCondGFormula.fit` run with the *generated* statements (`Gen.ice_pseudo`,
+    `Gen.ice_pred`, `Gen.ice_marginal`); the loop is the driver's -/
+def predFromGen (μ : List Bool → List Nat → Rat) (g : List Bool) (ls : List Nat) :
+    Nat → List (Option Nat) → Option Rat
+  | _, [] => none
+  | k, y :: rest =>
+    Gen.ice_pred (Gen.ice_pseudo (predFromGen μ g ls (k + 1) rest) (y.map fun v => ((v : Nat) : Rat)))
+      (μ (g.take (k + 1)) (ls.take (k + 1)))
+
+def opIceFitGen (a : Args) : Except String String := do
+  let (K, rows) ← wideArgs a
+  let plan ← parsePlan_C12 a
+  let tab ← muTable a
+  match Ice.expandPlan rows.length K plan with
+  | .error e => pure ("err " ++ showErr e)
+  | .ok P =>
+    if !(neededKeys K 0 P rows).all (fun key => (tab.lookup key).isSome) then throw "missing-mu" else
+    let col := List.zipWith (fun g (r : Ice.WRow) => predFromGen (muFun tab) g r.ls 0 r.ys) P rows
+    pure ("ok value=" ++ showRat (Gen.ice_marginal col))
+
 def opsC12 : OpTable :=
   [("ice_fit", opIceFit), ("ice_q", opIceQ), ("ice_npg", opIceNpg), ("tf_fit", opTfFit),
-   ("sgf_run", opSgfRun), ("sgf_pl", opSgfPl)]
+   ("sgf_run", opSgfRun), ("sgf_pl", opSgfPl), ("sgf_gen", opSgfGen), ("ice_fit_gen", opIceFitGen)]
 
 end ZVD
